@@ -5,7 +5,7 @@
 From Coq Require Import String.
 From Coq Require Import List Bool Arith NArith ZArith.
 Import ListNotations.
-Require Import PyLib Str IpModel TextModel TotalProofs G_fn_files G_fn_files2 RefJun RefValue RefIo RefPipeline.
+Require Import PyLib Str IpModel TextModel TotalProofs G_fn_files G_fn_files2 G_fn_files3 RefJun RefValue RefIo RefPipeline RefFaInit.
 
 (* FileAnonymizer.anonymize_io translated from the source IS the model's anonymize_io: on every line the stages run in the fixed order secrets,
    IPv6, IPv4, sensitive words, AS numbers, each only when enabled and each on the output of the one before; the state (secret table, the two IP
@@ -43,6 +43,42 @@ Theorem C15_generated_pipeline_is_the_model :
              = Normal (VTuple [VNone; enc_fa2 cls clsw clsa rw saltva f' d'; VList (outs0 ++ map vstr outs)]) /\ ok2 t4 t6 wa asa f' d'.
 Proof. exact gen_pipeline_refines. Qed.
 
+(* FileAnonymizer.__init__ translated from the source (G_fn_files3.v): which stages an option set switches on.  For EVERY dispatcher and whatever its
+   constructors answer (a value or an exception) at exactly the arguments the source passes: the sensitive-word anonymizer is built iff a word list is
+   given (from the words, the salt and default + user reserved words), both IP anonymizers iff anon_ip or undo (IPv4 from salt, prefixes, networks and
+   the v4 host bits; IPv6 from salt and the v6 host bits), the AS anonymizer iff a list is given, in that order, the first failure ending the
+   construction; the pattern table and an empty secret table are present iff anon_pwd; nothing else is set. *)
+Theorem C15_generated_constructor_switches_on_exactly_the_requested_stages :
+  forall (pc : pyval -> pyval -> PyLib.res) (cls : list Z) (pwd ip undo : bool) (salt : str) (ws asn pv pn b4 b6 crv : pyval)
+         (res : option (list pyval)) (dres : list pyval) (Aw A4 A6 Aa : answer) (fuel : nat),
+  pc (VFun (of_string "generate_default_sensitive_item_regexes")) (VTuple [VList []; VDict []]) = Normal crv ->
+  pc (VFun (of_string "default_reserved_words")) (VList []) = Normal (VList dres) ->
+  pc (VFun (of_string "SensitiveWordAnonymizer")) (VTuple [VList [ws; vstr salt; VList (Rl res dres)]; VDict []]) = to_res Aw ->
+  pc (VFun (of_string "IpAnonymizer")) (VTuple [VList [vstr salt; pv; pn]; VDict [(S_ "preserve_suffix", b4)]]) = to_res A4 ->
+  pc (VFun (of_string "IpV6Anonymizer")) (VTuple [VList [vstr salt]; VDict [(S_ "preserve_suffix", b6)]]) = to_res A6 ->
+  pc (VFun (of_string "AsNumberAnonymizer")) (VTuple [VList [asn; vstr salt]; VDict []]) = to_res Aa ->
+  gen_FileAnonymizer____init__ pc fuel (VObj cls []) (VBool pwd) (VBool ip) (vstr salt) ws (VBool undo) asn (oenc VList res) pv pn b4 b6
+  = built cls pwd ip undo salt ws asn crv (Rl res dres) Aw A4 A6 Aa.
+Proof. exact gen_fa_init_refines. Qed.
+
+(* ... and with the constructors answered by the model's, the object it builds is the encoding of what the model's fa_init builds: the starting point
+   of the two theorems above *)
+Theorem C15_generated_constructor_is_the_model :
+  forall (pc : pyval -> pyval -> PyLib.res) (cls : list Z) (o : options) (pv pn b4 b6 : pyval) (f : file_anonymizer) (fuel : nat),
+  pc (VFun (of_string "generate_default_sensitive_item_regexes")) (VTuple [VList []; VDict []]) = Normal CR ->
+  pc (VFun (of_string "default_reserved_words")) (VList []) = Normal (vres G_text_consts.RESERVED_WORDS) ->
+  pc (VFun (of_string "SensitiveWordAnonymizer")) (VTuple [VList [ws_val o; vstr (o_salt o); vres (reserved_of o)]; VDict []]) = to_res (ans_words o) ->
+  pc (VFun (of_string "IpAnonymizer")) (VTuple [VList [vstr (o_salt o); pv; pn]; VDict [(S_ "preserve_suffix", b4)]]) = to_res (ans_ip4 o) ->
+  pc (VFun (of_string "IpV6Anonymizer")) (VTuple [VList [vstr (o_salt o)]; VDict [(S_ "preserve_suffix", b6)]]) = to_res (ans_ip6 o) ->
+  pc (VFun (of_string "AsNumberAnonymizer")) (VTuple [VList [asn_val o; vstr (o_salt o)]; VDict []]) = to_res (ans_as o) ->
+  fa_init o = Done f ->
+  gen_FileAnonymizer____init__ pc fuel (VObj cls []) (VBool (o_pwd o)) (VBool (o_ip o)) (vstr (o_salt o)) (ws_val o) (VBool (o_undo o)) (asn_val o)
+      (oenc VList (option_map (map vstr) (o_reserved o))) pv pn b4 b6
+  = Normal (VTuple [VNone; enc_fa cls f]).
+Proof. exact gen_fa_init_is_the_model. Qed.
+
 Print Assumptions C15_generated_anonymize_io_is_the_model.
 Print Assumptions C15_generated_pipeline_is_the_model.
 Print Assumptions C15G_premises_are_met.
+Print Assumptions C15_generated_constructor_switches_on_exactly_the_requested_stages.
+Print Assumptions C15_generated_constructor_is_the_model.
